@@ -4,6 +4,7 @@
 -/
 import BespokeVerif.Model.Layout
 import BespokeVerif.Lemmas.Image
+import BespokeVerif.Lemmas.ImageFast
 namespace BV.C04
 open BV
 
@@ -79,5 +80,48 @@ example : overlapCheck none [⟨0, 2, [1, 2], false, true⟩, ⟨1, 1, [9], true
   decide +kernel
 example : overlapCheck none [⟨0, 2, [1, 2], false, true⟩, ⟨1, 0, [], false, true⟩, ⟨2, 1, [9], false, true⟩] = .ok () := by
   decide +kernel
+
+/-! ## end to end: the lines the model emits for any program -/
+
+/-- the emitted lines of any program are sorted by address: the hypothesis `SortedByAddr` of the
+    theorems above holds for them -/
+theorem emitted_sorted (cfg : Cfg) (files : List (List Stmt)) (es : List Emitted) (L : Labels)
+    (h : assembleLines cfg files = .ok (es, L)) : SortedByAddr es :=
+  assembleLines_sorted cfg files es L h
+
+/-- hence, for every program: the overlap check passes iff its occupying byte lines are pairwise
+    disjoint -/
+theorem check_passes_iff_disjoint (cfg : Cfg) (files : List (List Stmt)) (es : List Emitted) (L : Labels)
+    (h : assembleLines cfg files = .ok (es, L)) :
+    overlapCheck none es = .ok () ↔ (occupying es).Pairwise Disjoint :=
+  ⟨overlap_ok_disjoint es (emitted_sorted cfg files es L h), disjoint_overlap_ok es (emitted_sorted cfg files es L h)⟩
+
+/-- an accepted program has pairwise disjoint byte lines ("never silently occupy the same address") -/
+theorem accepted_program_disjoint (cfg : Cfg) (files : List (List Stmt)) (start : Int) (stop : Option Int) (fill : Nat)
+    (o : Outcome) (h : assemble cfg files start stop fill = .ok o) : (occupying o.emitted).Pairwise Disjoint := by
+  unfold assemble at h
+  cases hl : assembleLines cfg files with
+  | error e => rw [hl] at h; cases h
+  | ok r =>
+    obtain ⟨es, L⟩ := r
+    rw [hl] at h
+    simp only [bind, Except.bind] at h
+    cases ho : overlapCheck none es with
+    | error e => rw [ho] at h; cases h
+    | ok u =>
+      rw [ho] at h
+      cases h
+      exact (check_passes_iff_disjoint cfg files es L hl).mp ho
+
+/-- ... and a program whose byte lines are not pairwise disjoint is rejected, with the overlap error -/
+theorem overlapping_program_rejected (cfg : Cfg) (files : List (List Stmt)) (start : Int) (stop : Option Int) (fill : Nat)
+    (es : List Emitted) (L : Labels) (hl : assembleLines cfg files = .ok (es, L))
+    (hov : ¬ (occupying es).Pairwise Disjoint) : assemble cfg files start stop fill = .error .overlap := by
+  unfold assemble
+  rw [hl]
+  simp only [bind, Except.bind]
+  cases ho : overlapCheck none es with
+  | ok u => exact absurd ((check_passes_iff_disjoint cfg files es L hl).mp ho) hov
+  | error e => rw [overlap_error_kind es e ho]
 
 end BV.C04
